@@ -438,4 +438,10 @@ def run(pid, tier, replay=None):
         'distinct (model, type, object graph) with at least 2 objects')
 
 
-EXTRA = {}
+def _trace_dump(V, tier):
+    import trace_dump
+    trace_dump.validate(V, tier)
+
+
+# C06 also validates the dumps the repository's own tests perform (code->spec)
+EXTRA = {'C06': _trace_dump}
